@@ -14,17 +14,30 @@ let canon (b : bdd) : s =
 
 exception Unhandled
 let e_obdd = e_outcome e_bdd
+
+(* engine selection for fbin/bin/named: the reference engine (Model/Apply.v, association lists) for small
+   operands, the proved-equal efficient engine (Model/ApplyFast.v, Proofs/ApplyFast.v
+   fused_binary_flip_op_fast_eq) as soon as an operand has more than fast_threshold nodes, so both stay
+   exercised.  BDD_ENGINE=fast|slow forces one of them (used by the fast-vs-slow cross-check of ./check). *)
+let fast_threshold = 300
+let rec longer_than (l : 'a list) (k : int) = match l with [] -> false | _ :: r -> k <= 0 || longer_than r (k - 1)
+let engine = match Sys.getenv_opt "BDD_ENGINE" with Some "fast" -> `Fast | Some "slow" -> `Slow | _ -> `Auto
+let fbf (x : bdd) (y : bdd) fa fb fo op : bdd outcome =
+  let fast = match engine with
+    | `Fast -> true | `Slow -> false
+    | `Auto -> longer_than x fast_threshold || longer_than y fast_threshold in
+  if fast then fused_binary_flip_op_fast x y fa fb fo op else fused_binary_flip_op x y fa fb fo op
 let run (c : s list) : s option =
   Some (match c with
   | A "fbin" :: t :: fa :: fb :: fo :: x :: y :: _ ->
-    e_obdd (fused_binary_flip_op (d_bdd x) (d_bdd y) (d_optvar fa) (d_optvar fb) (d_optvar fo) (op2_of t))
+    e_obdd (fbf (d_bdd x) (d_bdd y) (d_optvar fa) (d_optvar fb) (d_optvar fo) (op2_of t))
   | A "bin" :: t :: x :: y :: _ ->
-    e_obdd (fused_binary_flip_op (d_bdd x) (d_bdd y) None None None (op2_of t))
+    e_obdd (fbf (d_bdd x) (d_bdd y) None None None (op2_of t))
   | A "named" :: A name :: x :: y :: _ ->
     let op = match name with
       | "and" -> op_and | "or" -> op_or | "imp" -> op_imp | "iff" -> op_iff | "xor" -> op_xor | "and_not" -> op_and_not
       | _ -> raise (Bad "named") in
-    e_obdd (fused_binary_flip_op (d_bdd x) (d_bdd y) None None None op)
+    e_obdd (fbf (d_bdd x) (d_bdd y) None None None op)
   | A "fbinlim" :: lim :: t :: fa :: fb :: fo :: x :: y :: _ ->
     e_outcome (e_opt e_bdd)
       (fused_binary_flip_op_with_limit (d_n lim) (d_bdd x) (d_bdd y) (d_optvar fa) (d_optvar fb) (d_optvar fo) (op2_of t))
